@@ -89,6 +89,9 @@ func (codecV2) ReadHeadBody(r io.Reader) ([]byte, []byte, error) {
 	if length > V2MaxPayloadBytes {
 		return nil, nil, fmt.Errorf("payload size %d overflow", length)
 	}
+	if length < V2HeaderSize {
+		return nil, nil, fmt.Errorf("payload size %d less than header size", length)
+	}
 	var payload = make([]byte, length-V2HeaderSize)
 	if _, err := io.ReadFull(r, payload); err != nil {
 		return nil, nil, err
